@@ -26,11 +26,11 @@ CHECKS = {
   note='Trusted: as C01 plus queue.Queue atomic FIFO, GIL-atomic closure variable, the concurrent.futures contract (DESIGN.md 5). Process-pool back ends (mp, dill_mp, multiprocessing, concurrent_mp) are covered only through that executor contract and a small real-pool contract test; OS scheduling itself is not modelled (not needed: all schedules are covered).',
   ref='7 C04'),
  'C05': dict(
-  text='Lean: stp_no_deadlock, stp_terminates (strictly decreasing measure on every transition of every thread: all schedules finite without fairness), stp_stops_after_close (measure independent of the source), stp_worker_exited; lpm_no_deadlock, lpm_terminates, lpm_quiescent, lpm_close_terminates_pool, lpm_cancelled_never_runs; counterexample theorems for the pathos flavour (known finding F16). Controlled schedules of the real code with every stop point: DFS with preemption bound + random; deadlock = no enabled thread; oracle: thread liveness, no source pull / no function call after control returned.',
+  text='Lean: stp_no_deadlock, stp_terminates (strictly decreasing measure on every transition of every thread: all schedules finite without fairness), stp_stops_after_close (measure independent of the source), stp_worker_exited; lpm_no_deadlock, lpm_terminates, lpm_quiescent, lpm_close_terminates_pool, lpm_cancelled_never_runs; lpm_quiescent_pathos_fixed / lpm_quiescent_exit for the repaired pathos flavour (`killOnError`) and the counterexample theorem for the flavour before the repair of F16. Controlled schedules of the real code with every stop point: DFS with preemption bound + random; deadlock = no enabled thread; oracle: thread liveness, no source pull / no function call after control returned.',
   note='Trusted as C04. GC-triggered close and OS thread exit are observed, not modelled. "cancelled rather than executed" is proved as: a future whose cancel() succeeded never runs and nothing is pending after terminate (DESIGN.md 9).',
   ref='7 C05'),
  'C06': dict(
-  text='Lean: stp_complete (every item before the failing one is delivered, then exactly the source exception, for every schedule), lpm_error_position; lpm_source_error_partial + lpm_source_error_drops_counterexample (known finding F17). catch_filter_exception: C14 theorems on catchOuts. Correspondence/oracle: controlled runs with failing sources and functions.',
+  text='Lean: stp_complete (every item before the failing one is delivered, then exactly the source exception, for every schedule), lpm_error_position (at an error exit the delivered list is the longest all-ok prefix and the error is that of the first failing result, or, when the source itself raised, every element was delivered first), lpm_error_first_failure, lpm_source_error_delivers_all, lpm_source_error_position (the repaired F17: the error drain `drainErr`/`yieldedErr`). catch_filter_exception: C14 theorems on catchOuts. Correspondence/oracle: controlled runs with failing sources and functions.',
   note='Trusted as C04. The identity test of the in-process marker across pickling back ends (finding F12) is outside the model; covered by the real-pool contract test.',
   ref='7 C06'),
  'C07': dict(
